@@ -291,6 +291,7 @@ func (fc *FnCtx) execBlock(b *ssa.BasicBlock, st *State) []edgeOut {
 			r := fc.newRef(st, "chan")
 			fc.vals[x] = SV{Typ: x.Type(), T: []Term{r}}
 			fc.ghostSet(st, "chanClosed", SBool, r, "false")
+			fc.ghostSet(st, "chanCap", SInt, r, fc.val(x.Size).one())
 		case *ssa.MakeClosure:
 			r := fc.newRef(st, "closure")
 			fc.closures[x] = x
